@@ -2,12 +2,17 @@ package env
 
 import (
 	"fmt"
+	"time"
 
 	"simh/sim"
 )
 
 // KDC is a stub Kerberos KDC endpoint (one address, one protocol).
 type KDC struct {
+	// DripGap: pause between the pieces of a dripped reply
+	DripGap time.Duration
+	drips   int
+
 	W        *World
 	Addr     string
 	Proto    string // "tcp" or "udp"
@@ -53,6 +58,9 @@ func (w *World) AddKDC(proto, addr, behave string, reply []byte) *KDC {
 			case "close":
 				e.Shut()
 			case "silent":
+			case "drip":
+				// the reply comes in pieces, each a few seconds after the previous one
+				k.dripStart(e, reply)
 			}
 			w.S.Count("probe.kdc." + k.Proto + "." + k.Behave)
 		}
@@ -78,4 +86,29 @@ func (k *KDC) ReplyFor(req []byte) []byte {
 	body := append(append([]byte{}, k.Reply[4:]...), tag...)
 	out := []byte{byte(len(body) >> 24), byte(len(body) >> 16), byte(len(body) >> 8), byte(len(body))}
 	return append(out, body...)
+}
+
+// dripStart sends a reply in 6-10 pieces with DripGap between them (an actor per connection:
+// the scheduler lets simulated time pass when nothing else is enabled).
+func (k *KDC) dripStart(e *sim.End, reply []byte) {
+	w := k.W
+	n := 6 + len(reply)%5
+	if n > len(reply) {
+		n = len(reply)
+	}
+	sent := 0
+	next := time.Now().Add(k.DripGap)
+	k.drips++
+	w.S.AddActor(fmt.Sprintf("K drip %s %s %d", k.Proto, k.Addr, k.drips), func() bool {
+		return sent < n && !e.Closed && !time.Now().Before(next)
+	}, func() {
+		a, b := len(reply)*sent/n, len(reply)*(sent+1)/n
+		e.Send(reply[a:b])
+		sent++
+		next = time.Now().Add(k.DripGap)
+		if sent == n {
+			e.Shut()
+		}
+		w.S.Count("probe.kdc.drip_piece")
+	})
 }
